@@ -311,16 +311,16 @@ def _object_kwargs(name):
     if name == "Surface" or name == "NeighbourhoodSurface":
         return {"vertices": np.vstack([V3, [[2.0, 2.0, 2.0]]]), "cells": np.array([[0, 1, 2], [1, 2, 3]], dtype="uint32")}
     if name == "Grid2D":
-        return {"u_count": 3, "v_count": 2, "u_cell_size": 1.5, "v_cell_size": 2.5, "origin": [1.0, 2.0, 3.0],
+        return {"u_count": 3, "v_count": 2, "u_cell_size": 1.5, "v_cell_size": 2.5, "origin": [445000.0, 5500000.0, 300.0],
                 "rotation": 30.0, "dip": 45.0}
     if name == "BlockModel":
         return {"u_cell_delimiters": np.array([0.0, 1, 2.5]), "v_cell_delimiters": np.array([0.0, 1.5]),
-                "z_cell_delimiters": np.array([-2.0, -1, 0]), "origin": [1.0, 2.0, 3.0], "rotation": 15.0}
+                "z_cell_delimiters": np.array([-2.0, -1, 0]), "origin": [445000.0, 5500000.0, 300.0], "rotation": 15.0}
     if name == "Octree":
-        return {"u_count": 4, "v_count": 2, "w_count": 2, "origin": [1.0, 2.0, 3.0], "rotation": 15.0,
+        return {"u_count": 4, "v_count": 2, "w_count": 2, "origin": [445000.0, 5500000.0, 300.0], "rotation": 15.0,
                 "u_cell_size": 1.5, "v_cell_size": 2.5, "w_cell_size": 3.5}
     if name == "Drillhole":
-        return {"collar": [1.0, 2.0, 3.0], "surveys": np.array([[0.0, 10.0, -80.0], [8.0, 20.0, -70.0]]),
+        return {"collar": [445000.0, 5500000.0, 300.0], "surveys": np.array([[0.0, 10.0, -80.0], [8.0, 20.0, -70.0]]),
                 "end_of_hole": 8.0, "cost": 12.5, "planning": "Ongoing"}
     if name == "DrapeModel":
         return {"layers": np.array([[0, 0, -1.0], [0, 1, -2.0], [1, 0, -1.5], [1, 1, -2.5]]),
@@ -585,6 +585,14 @@ def _shift_array(arr, k):
     raise Skip(f"array of dtype {arr.dtype}")
 
 
+def near(x):
+    """a float that differs from x by a relative 4e-6 (4e-9 around zero): a different valid value that a tolerance
+    comparison such as numpy.isclose (rtol 1e-5, atol 1e-8) takes for x.  The harness compares floats with a relative
+    tolerance of 1e-9 (`same`), three orders of magnitude finer, so the two are distinct tokens."""
+    x = float(x)
+    return x + max(abs(x) * 4e-6, 4e-9)
+
+
 def _generic(cur):  # pylint: disable=too-many-return-statements
     if isinstance(cur, (bool, np.bool_)):
         raise Skip("bool has a single alternative")  # handled by caller (K tokens: True/False only)
@@ -598,7 +606,8 @@ def _generic(cur):  # pylint: disable=too-many-return-statements
     if isinstance(cur, (int, np.integer)):
         return [int(cur) + 1, int(cur) + 5]
     if isinstance(cur, (float, np.floating)):
-        return [float(cur) + 0.5, float(cur) * 2 + 1.25]
+        # token 1: another value; token 2: a near-equal neighbour of the stored value (30.0 -> 30.00012)
+        return [float(cur) + 0.5, near(cur)]
     if isinstance(cur, np.ndarray):
         return [_shift_array(cur, 1), _shift_array(cur, 2)]
     if isinstance(cur, dict):
@@ -635,6 +644,15 @@ def domain(fx: Fixture, ent, attr, cur):  # pylint: disable=too-many-return-stat
         return _others(PLANNING, cur), base
     if attr == "mapping":
         return _others(MAPPING, cur), base
+    if name == "GeoImage" and attr in ("dip", "rotation"):
+        # recomputed from the corner vertices by trigonometry: no near-equal neighbour (it would sit inside the
+        # rounding of the round trip)
+        return [float(cur) + 0.5, float(cur) * 2 + 1.25], base
+    if name == "Grid2D" and attr == "dip":
+        # 90 is a valid dip and switches the coupled `vertical` flag on (grid2d.py:240-252)
+        if bool(getattr(ent, "vertical", False)) or float(cur) == 90.0:
+            raise Skip("the fixture grid is vertical")
+        return [90.0, near(cur)], base
     if attr == "coordinate_reference_system":
         return [copy.deepcopy(CRS[0]), copy.deepcopy(CRS[1])], base
     if attr == "metadata":
@@ -716,7 +734,9 @@ def domain(fx: Fixture, ent, attr, cur):  # pylint: disable=too-many-return-stat
     if attr in ("origin", "collar"):
         vals = [float(cur[k]) for k in cur.dtype.names] if getattr(cur, "dtype", None) is not None and cur.dtype.names \
             else [float(x) for x in np.asarray(cur).ravel()]
-        return [[v + 0.5 for v in vals], [v * 2 + 1.25 for v in vals]], base
+        # token 1: the northing moved by half a metre (relative 1e-7 of a UTM coordinate: near-equal in every field);
+        # token 2: far away
+        return [[vals[0], vals[1] + 0.5, vals[2]], [v * 2 + 1.25 for v in vals]], base
     if attr == "color_map":
         def cmap(k):
             return np.core.records.fromarrays(
@@ -846,6 +866,26 @@ def domain(fx: Fixture, ent, attr, cur):  # pylint: disable=too-many-return-stat
     if _is_entity(cur):
         raise Skip(f"entity-valued attribute ({type(cur).__name__}) without an override")
     return _generic(cur), base
+
+
+def assign(cls_name, ent, attr, value, inplace=False):
+    """The assignment `ent.attr = value` in one of two styles, plus the class-specific preliminaries a valid assignment
+    needs.  inplace: for array values whose getter hands out an array of the same shape and dtype, edit THAT array in
+    place and assign it back (`v = data.values; v[:] = ...; data.values = v`) - as valid as assigning a fresh array.
+    Returns the style used."""
+    if cls_name == "Grid2D" and attr == "dip" and float(value) != 90.0 and bool(ent.vertical):
+        ent.vertical = False  # a vertical grid has dip 90 by definition: leave that state first (grid2d.py:232-236)
+    if inplace and isinstance(value, np.ndarray):
+        try:
+            cur = getattr(ent, attr)
+        except Exception:  # pylint: disable=broad-except
+            cur = None
+        if isinstance(cur, np.ndarray) and cur.shape == value.shape and cur.dtype == value.dtype and cur.flags.writeable:
+            cur[...] = value
+            setattr(ent, attr, cur)
+            return "inplace"
+    setattr(ent, attr, value)
+    return "fresh"
 
 
 def materialise(value, ws):
